@@ -245,6 +245,7 @@ theorem valKey_of_VT {v : Val} {τ : Ty} (hc : concreteTy τ = true) (h : VT S P
     simp [nominalArgs, ctorTyName] at hn
     subst hn; simp [valKey, tyKey]
   | ref _ => simp [concreteTy] at hc
+  | dyn _ _ _ => simp [concreteTy] at hc
   | closure _ _ _ => simp [concreteTy] at hc
   | fn θ _ => simp [concreteTy, fnTy, substTy] at hc
 
@@ -276,6 +277,7 @@ theorem VT.mono {Ψ Ψ' : List Ty} (hx : Ext Ψ Ψ') : ∀ {v : Val} {t : Ty}, V
   | _, _, .array h1 h2 => .array (VTall.mono hx h1) h2
   | _, _, .vec h1 => .vec (VTall.mono hx h1)
   | _, _, .ref h => .ref (get_ext hx h)
+  | _, _, .dyn h1 h2 h3 => .dyn h1 (VT.mono hx h2) h3
   | _, _, .closure h1 h2 h3 => .closure (ET.mono hx h1) h2 h3
   | _, _, .fn θ h => .fn θ h
 theorem VTs.mono {Ψ Ψ' : List Ty} (hx : Ext Ψ Ψ') : ∀ {vs : List Val} {ts : List Ty}, VTs S P Ψ vs ts → VTs S P Ψ' vs ts
